@@ -279,10 +279,19 @@ impl<'tcx> Ctx<'tcx> {
                     }
                 }
                 // integers / bools / chars: evaluate
-                let is_scalar = matches!(
+                let mut is_scalar = matches!(
                     ty.kind(),
                     ty::Int(_) | ty::Uint(_) | ty::Bool | ty::Char
                 );
+                // single-field tuple structs over an unsigned integer (CoinValue, BlockHeight): scalar ABI, the value is the field
+                if let ty::Adt(adef, aargs) = ty.kind() {
+                    if adef.is_struct() && adef.all_fields().count() == 1 {
+                        let fty = adef.all_fields().next().unwrap().ty(tcx, aargs);
+                        if matches!(fty.kind(), ty::Uint(_)) {
+                            is_scalar = true;
+                        }
+                    }
+                }
                 if is_scalar {
                     let env = TypingEnv::post_analysis(tcx, owner);
                     if let Some(si) = c.const_.try_eval_scalar_int(tcx, env) {
